@@ -538,7 +538,7 @@ class Summarizer:
                 return self.expr(n.body, st)
             if f is False:
                 return self.expr(n.orelse, st)
-            return Sym(("ite", f, vkey(self.expr(n.body, st)), vkey(self.expr(n.orelse, st))))
+            return Sym(("ite", f, self.expr(n.body, st), self.expr(n.orelse, st)))
         if isinstance(n, (ast.ListComp, ast.GeneratorExp, ast.SetComp, ast.DictComp)):
             v = self.h.comprehension(self, n, st) if hasattr(self.h, "comprehension") else None
             if v is not None:
